@@ -122,7 +122,7 @@ pub fn gen_name(r: &mut Rng) -> String {
 
 pub fn tag_names() -> Vec<String> {
     let mut v: Vec<String> = mpdspec::named_tags().iter().map(|(_, n)| n.to_string()).collect();
-    v.extend(["Mood", "x-custom", "my_tag", "TitleSort"].iter().map(|s| s.to_string()));
+    v.extend(["Mood", "x-custom", "my_tag", "TitleSort", "X-AlbumUri", "MUSICBRAINZ_RELEASEGROUPARTISTID", "a_tag_name_that_is_rather_longer_than_any_name_mpd_uses_today_but_perfectly_valid"].iter().map(|s| s.to_string()));
     v
 }
 
